@@ -33,8 +33,15 @@ const (
 	endhostPort  = 30041
 	sentinelSecs = 0x5E471E00
 	readTimeout  = 20 * time.Second
-	nSocks       = 12
-	nSameAddr    = 10
+	// once a sentinel has gone unanswered the case in flight is a violation already; the few
+	// steps of the same history that are still driven (to show what the listener does
+	// afterwards) do not wait long
+	afterLossTimeout = 1500 * time.Millisecond
+	maxAfterLoss     = 6
+	// sending sockets: many source ports, so that every listener goroutine (the kernel hashes
+	// the source port over the SO_REUSEPORT group of 8) is reached from several sockets
+	nSocks    = 64
+	nSameAddr = 56
 )
 
 type sysClock struct{}
@@ -56,7 +63,8 @@ type drv struct {
 	srvIP    net.IP
 	socks    []*net.UDPConn
 	seq      uint32
-	lost     bool // a sentinel went unanswered: stop driving
+	lost     bool // a sentinel went unanswered: finish the history in flight quickly, then stop driving
+	dbuf     []byte
 }
 
 func ownAddr(second byte) net.IP {
@@ -65,7 +73,7 @@ func ownAddr(second byte) net.IP {
 }
 
 func newDrv() *drv {
-	d := &drv{}
+	d := &drv{dbuf: make([]byte, 65536)}
 	timebase.RegisterClock(sysClock{})
 	d.provider = ntske.NewProvider()
 	d.srvIP = ownAddr(9)
@@ -73,8 +81,8 @@ func newDrv() *drv {
 	ctx := context.Background()
 	server.StartIPServer(ctx, log, &net.UDPAddr{IP: d.srvIP, Port: ipPort}, 0, d.provider)
 	server.StartSCIONServer(ctx, log, "" /* daemon */, &net.UDPAddr{IP: d.srvIP, Port: scionPort}, 0, d.provider)
-	// sending sockets: nSameAddr ports on the listener's address (more than there are
-	// listener goroutines, so at least two of them share one), the rest on another address
+	// sending sockets: nSameAddr ports on the listener's address (many more than there are
+	// listener goroutines, so each goroutine serves several of them), the rest on another address
 	for i := 0; i < nSocks; i++ {
 		ip := d.srvIP
 		if i >= nSameAddr {
@@ -91,13 +99,13 @@ func newDrv() *drv {
 }
 
 // drain returns what is queued on a socket right now without waiting.
-func drain(c *net.UDPConn) [][]byte {
+func (d *drv) drain(c *net.UDPConn) [][]byte {
 	var res [][]byte
 	rc, err := c.SyscallConn()
 	if err != nil {
 		return nil
 	}
-	buf := make([]byte, 65536)
+	buf := d.dbuf
 	for {
 		n := -1
 		rc.Read(func(fd uintptr) bool {
@@ -144,11 +152,16 @@ func (d *drv) exchange(sender int, dst *net.UDPAddr, pkt, sentinelPkt []byte,
 		note(fmt.Sprintf("write failed: %v", err))
 	}
 	buf := make([]byte, 65536)
-	deadline := time.Now().Add(readTimeout)
+	timeout := readTimeout
+	if d.lost {
+		timeout = afterLossTimeout
+	}
+	deadline := time.Now().Add(timeout)
 	for {
 		c.SetReadDeadline(deadline)
 		n, _, err := c.ReadFromUDP(buf)
 		if err != nil {
+			// the sentinel, a well-formed plain request, was not answered
 			d.lost = true
 			break
 		}
@@ -160,7 +173,7 @@ func (d *drv) exchange(sender int, dst *net.UDPAddr, pkt, sentinelPkt []byte,
 		reps = append(reps, obs{sender, b})
 	}
 	for i, s := range d.socks {
-		for _, b := range drain(s) {
+		for _, b := range d.drain(s) {
 			if isSentinel(b) {
 				sreps = append(sreps, obs{i, b})
 			} else {
@@ -405,7 +418,7 @@ func (d *drv) runParallel(data []byte, dst *net.UDPAddr) []string {
 	// anything left anywhere: late, duplicated or misdirected datagrams; charge them to the
 	// socket they arrived at when it took part, else to the first one
 	for i, s := range d.socks {
-		for _, b := range drain(s) {
+		for _, b := range d.drain(s) {
 			g := order[0]
 			if _, ok := groups[i]; ok {
 				g = i
@@ -424,13 +437,27 @@ func (d *drv) runParallel(data []byte, dst *net.UDPAddr) []string {
 	return outs
 }
 
+// afterLoss decides whether one more step of the history in flight is driven after a
+// sentinel has gone unanswered.
+func (d *drv) afterLoss(n *int, s step) bool {
+	*n++
+	return *n <= maxAfterLoss && s.k != kParallel && s.k != kBurst
+}
+
 func (d *drv) runIP(tags string, steps []step, r *lib.Rng) {
+	if d.lost {
+		return
+	}
 	args := stepsString(steps)
 	emitCur("ip", tags, args)
 	dst := &net.UDPAddr{IP: d.srvIP, Port: ipPort}
 	firstReply := make([][]byte, len(steps))
 	var outs []string
+	after := 0
 	for i, s := range steps {
+		if d.lost && !d.afterLoss(&after, s) {
+			break
+		}
 		if s.k == kParallel {
 			outs = append(outs, d.runParallel(s.data, dst)...)
 			if d.lost {
@@ -466,9 +493,6 @@ func (d *drv) runIP(tags string, steps []step, r *lib.Rng) {
 			firstReply[i] = reps[0].data
 		}
 		outs = append(outs, lib.L(lib.I(int64(s.sender)), lib.B(payload), lib.Bool(ntsok), obsList(reps), lib.B(sentinel), obsList(sreps)))
-		if d.lost {
-			break
-		}
 	}
 	emitCase("ip", tags, args, lib.V("0", lib.L(outs...)))
 }
@@ -597,12 +621,19 @@ func scionKind(steps []step) string {
 }
 
 func (d *drv) runSCION(tags string, steps []step, r *lib.Rng) {
+	if d.lost {
+		return
+	}
 	args := stepsString(steps)
 	kind := scionKind(steps)
 	emitCur(kind, tags, args)
 	firstReply := make([][]byte, len(steps))
 	var outs []string
+	after := 0
 	for i, s := range steps {
+		if d.lost && !d.afterLoss(&after, s) {
+			break
+		}
 		payload := d.payloadOf(s, firstReply, r)
 		ntsok := d.ntsValid(payload)
 		sentinel := d.nextSentinel()
@@ -631,9 +662,6 @@ func (d *drv) runSCION(tags string, steps []step, r *lib.Rng) {
 		outs = append(outs, lib.L(lib.U(uint64(s.hdr.underlay)), lib.U(scionPort), lib.I(int64(s.sender)),
 			s.hdr.modelString(), lib.B(payload), lib.Bool(ntsok), reversed(s.hdr.pathType, s.hdr.pathRaw), scionObsList(reps),
 			sh.modelString(), lib.B(sentinel), reversed(sh.pathType, sh.pathRaw), scionObsList(sreps)))
-		if d.lost {
-			break
-		}
 	}
 	emitCase(kind, tags, args, lib.V("0", lib.L(outs...)))
 }
